@@ -84,6 +84,12 @@ func (x *Exec) oblig(kind string, pos token.Pos, text string, pc, goal Term) {
 		return
 	}
 	x.u.AddObligation(x.topName, kind, pos, x.labels, text, pc, goal)
+	switch kind {
+	case "nil", "index", "slice", "assert-type", "div", "make":
+		// assert-then-assume: execution continues past a run-time check only if it succeeded, so later
+		// obligations on this path may rely on it (the check itself was recorded before this assumption).
+		x.u.Assume(Implies(pc, goal))
+	}
 }
 
 // instr executes one non-terminator instruction.
